@@ -112,27 +112,27 @@ VariantTags(tv, j) == SeqMap(LAMBDA a : Var[a], VarIdx(tv, j))
 
 -----------------------------------------------------------------------------
 (* CATALOGUE *)
-R(id, o) == [id |-> id, o |-> o]
-Op(n, c) == [n |-> n, c |-> c]
-Mk(rt, name, refs, f, num, ovs, tg) ==
+Rf(id, o) == [id |-> id, o |-> o]
+COp(n, c) == [n |-> n, c |-> c]
+MkLine(rt, name, refs, f, num, ovs, tg) ==
   [rt |-> rt, name |-> name, refs |-> refs, f |-> f, num |-> num, ovs |-> ovs, tg |-> tg]
 
-Hd(tg)            == Mk("H", "*", <<>>, <<>>, <<>>, <<>>, tg)
-Cm(text)          == Mk("#", "*", <<>>, <<text>>, <<>>, <<>>, <<>>)
-S1(n, seq, tg)    == Mk("S", n, <<>>, <<seq>>, <<>>, <<>>, tg)
-Lk(a, ao, b, bo, ov, ops, id) == Mk("L", id, <<R(a, ao), R(b, bo)>>, <<ov>>, <<>>, <<ops>>, <<>>)
-Ct(a, ao, b, bo, pos, ov, ops, id) == Mk("C", id, <<R(a, ao), R(b, bo)>>, <<pos, ov>>, <<>>, <<ops>>, <<>>)
-Pa(n, refs, ov, ops) == Mk("P", n, refs, <<ov>>, <<>>, ops, <<>>)
-S2(n, len, lentxt, seq) == Mk("S", n, <<>>, <<lentxt, seq>>, <<len>>, <<>>, <<>>)
-Ed(n, r1, r2, pos, num, aln, ops) == Mk("E", n, <<r1, r2>>, pos \o <<aln>>, num, <<ops>>, <<>>)
-Gp(n, r1, r2, dist, var) == Mk("G", n, <<r1, r2>>, <<dist, var>>, <<>>, <<>>, <<>>)
-Fr(s, ext, pos, aln) == Mk("F", "*", <<R(s, "")>>, <<ext>> \o pos \o <<aln>>, <<>>, <<>>, <<>>)
-Og(n, refs) == Mk("O", n, refs, <<>>, <<>>, <<>>, <<>>)
-Ug(n, ids)  == Mk("U", n, SeqMap(LAMBDA x : R(x, ""), ids), <<>>, <<>>, <<>>, <<>>)
-Cu(rt, f)   == Mk(rt, "*", <<>>, f, <<>>, <<>>, <<>>)
+Hd(tg)            == MkLine("H", "*", <<>>, <<>>, <<>>, <<>>, tg)
+Cm(text)          == MkLine("#", "*", <<>>, <<text>>, <<>>, <<>>, <<>>)
+S1(n, seq, tg)    == MkLine("S", n, <<>>, <<seq>>, <<>>, <<>>, tg)
+Lk(a, ao, b, bo, ov, ops, id) == MkLine("L", id, <<Rf(a, ao), Rf(b, bo)>>, <<ov>>, <<>>, <<ops>>, <<>>)
+Ct(a, ao, b, bo, pos, ov, ops, id) == MkLine("C", id, <<Rf(a, ao), Rf(b, bo)>>, <<pos, ov>>, <<>>, <<ops>>, <<>>)
+Pa(n, refs, ov, ops) == MkLine("P", n, refs, <<ov>>, <<>>, ops, <<>>)
+S2(n, len, lentxt, seq) == MkLine("S", n, <<>>, <<lentxt, seq>>, <<len>>, <<>>, <<>>)
+Ed(n, r1, r2, pos, num, aln, ops) == MkLine("E", n, <<r1, r2>>, pos \o <<aln>>, num, <<ops>>, <<>>)
+Gp(n, r1, r2, dist, var) == MkLine("G", n, <<r1, r2>>, <<dist, var>>, <<>>, <<>>, <<>>)
+Fr(s, ext, pos, aln) == MkLine("F", "*", <<Rf(s, "")>>, <<ext>> \o pos \o <<aln>>, <<>>, <<>>, <<>>)
+Og(n, refs) == MkLine("O", n, refs, <<>>, <<>>, <<>>, <<>>)
+Ug(n, ids)  == MkLine("U", n, SeqMap(LAMBDA x : Rf(x, ""), ids), <<>>, <<>>, <<>>, <<>>)
+Cu(rt, f)   == MkLine(rt, "*", <<>>, f, <<>>, <<>>, <<>>)
 
-C2M1D1M == <<Op(2, "M"), Op(1, "D"), Op(1, "M")>>
-C1M1I2M == <<Op(1, "M"), Op(1, "I"), Op(2, "M")>>
+C2M1D1M == <<COp(2, "M"), COp(1, "D"), COp(1, "M")>>
+C1M1I2M == <<COp(1, "M"), COp(1, "I"), COp(2, "M")>>
 
 Cat1 == <<
   (* 1*) Hd(<<Tg("VN", "Z", "1.0")>>),
@@ -147,16 +147,16 @@ Cat1 == <<
   (*10*) Lk("A", "+", "B", "+", "2M1D1M", C2M1D1M, "*"),
   (*11*) Lk("B", "-", "A", "-", "1M1I2M", C1M1I2M, "*"),       \* complement form of 10
   (*12*) Lk("A", "+", "C", "+", "*", <<>>, "*"),
-  (*13*) Lk("B", "+", "C", "-", "3M", <<Op(3, "M")>>, "l1"),
-  (*14*) Lk("B", "+", "A", "+", "1M", <<Op(1, "M")>>, "*"),
-  (*15*) Ct("A", "+", "B", "+", "1", "2M", <<Op(2, "M")>>, "*"),
+  (*13*) Lk("B", "+", "C", "-", "3M", <<COp(3, "M")>>, "l1"),
+  (*14*) Lk("B", "+", "A", "+", "1M", <<COp(1, "M")>>, "*"),
+  (*15*) Ct("A", "+", "B", "+", "1", "2M", <<COp(2, "M")>>, "*"),
   (*16*) Ct("A", "-", "C", "+", "0", "*", <<>>, "c1"),
-  (*17*) Pa("p1", <<R("A", "+"), R("B", "+")>>, "2M1D1M", <<C2M1D1M>>),
-  (*18*) Pa("p2", <<R("A", "+"), R("C", "+")>>, "*", <<<<>>>>),
-  (*19*) Pa("p3", <<R("A", "+"), R("B", "+")>>, "*,*", <<<<>>, <<>>>>),              \* circular
-  (*20*) Pa("p4", <<R("B", "+"), R("A", "+")>>, "1M,2M1D1M", <<<<Op(1, "M")>>, C2M1D1M>>),  \* circular
-  (*21*) Pa("p5", <<R("A", "+")>>, "*", <<<<>>>>),
-  (*22*) Pa("p6", <<R("B", "-"), R("A", "-")>>, "1M1I2M", <<C1M1I2M>>),              \* uses the complement
+  (*17*) Pa("p1", <<Rf("A", "+"), Rf("B", "+")>>, "2M1D1M", <<C2M1D1M>>),
+  (*18*) Pa("p2", <<Rf("A", "+"), Rf("C", "+")>>, "*", <<<<>>>>),
+  (*19*) Pa("p3", <<Rf("A", "+"), Rf("B", "+")>>, "*,*", <<<<>>, <<>>>>),              \* circular
+  (*20*) Pa("p4", <<Rf("B", "+"), Rf("A", "+")>>, "1M,2M1D1M", <<<<COp(1, "M")>>, C2M1D1M>>),  \* circular
+  (*21*) Pa("p5", <<Rf("A", "+")>>, "*", <<<<>>>>),
+  (*22*) Pa("p6", <<Rf("B", "-"), Rf("A", "-")>>, "1M1I2M", <<C1M1I2M>>),              \* uses the complement
   (*23*) Cm(" comment"),
   (*24*) Cm("  two leading spaces"),
   (*25*) Cm("no space\tbut a tab") >>
@@ -174,22 +174,22 @@ Cat2 == <<
   (* 6*) S2("a", 4, "4", "ACGT"),
   (* 7*) S2("b", 6, "6", "*"),
   (* 8*) S2("c", 3, "3", "*"),
-  (* 9*) Ed("e1", R("a", "+"), R("b", "+"), <<"2", "4$", "0", "2">>, <<2, 0, 4, 1, 0, 0, 2, 0>>, "2M", <<Op(2, "M")>>),
-  (*10*) Ed("*",  R("a", "+"), R("b", "-"), <<"0", "4$", "1", "5">>, <<0, 0, 4, 1, 1, 0, 5, 0>>, "*", <<>>),
-  (*11*) Ed("e3", R("a", "+"), R("c", "+"), <<"1", "2", "1", "2">>, <<1, 0, 2, 0, 1, 0, 2, 0>>, "*", <<>>),
-  (*12*) Ed("e4", R("b", "-"), R("c", "+"), <<"0", "3", "0", "3$">>, <<0, 0, 3, 0, 0, 0, 3, 1>>, "1,2", <<>>),
-  (*13*) Ed("*",  R("b", "+"), R("c", "+"), <<"3", "6$", "0", "3$">>, <<3, 0, 6, 1, 0, 0, 3, 1>>, "3M", <<Op(3, "M")>>),
-  (*14*) Ed("e5", R("c", "+"), R("a", "+"), <<"1", "3$", "0", "2">>, <<1, 0, 3, 1, 0, 0, 2, 0>>, "*", <<>>),
+  (* 9*) Ed("e1", Rf("a", "+"), Rf("b", "+"), <<"2", "4$", "0", "2">>, <<2, 0, 4, 1, 0, 0, 2, 0>>, "2M", <<COp(2, "M")>>),
+  (*10*) Ed("*",  Rf("a", "+"), Rf("b", "-"), <<"0", "4$", "1", "5">>, <<0, 0, 4, 1, 1, 0, 5, 0>>, "*", <<>>),
+  (*11*) Ed("e3", Rf("a", "+"), Rf("c", "+"), <<"1", "2", "1", "2">>, <<1, 0, 2, 0, 1, 0, 2, 0>>, "*", <<>>),
+  (*12*) Ed("e4", Rf("b", "-"), Rf("c", "+"), <<"0", "3", "0", "3$">>, <<0, 0, 3, 0, 0, 0, 3, 1>>, "1,2", <<>>),
+  (*13*) Ed("*",  Rf("b", "+"), Rf("c", "+"), <<"3", "6$", "0", "3$">>, <<3, 0, 6, 1, 0, 0, 3, 1>>, "3M", <<COp(3, "M")>>),
+  (*14*) Ed("e5", Rf("c", "+"), Rf("a", "+"), <<"1", "3$", "0", "2">>, <<1, 0, 3, 1, 0, 0, 2, 0>>, "*", <<>>),
   (*15*) Fr("a", "x+", <<"0", "2", "0", "2">>, "*"),
   (*16*) Fr("b", "y-", <<"1", "3", "10", "12$">>, "2M"),
   (*17*) Fr("a", "x+", <<"2", "4$", "5", "7">>, "0,2"),
-  (*18*) Gp("g1", R("a", "+"), R("b", "-"), "10", "*"),
-  (*19*) Gp("*",  R("b", "+"), R("c", "+"), "5", "2"),
-  (*20*) Og("o1", <<R("a", "+"), R("b", "+")>>),
-  (*21*) Og("o2", <<R("a", "+"), R("e1", "+"), R("b", "+")>>),
-  (*22*) Og("o3", <<R("o2", "-"), R("c", "-")>>),
-  (*23*) Og("*",  <<R("b", "+"), R("c", "+")>>),
-  (*24*) Og("o4", <<R("c", "-")>>),
+  (*18*) Gp("g1", Rf("a", "+"), Rf("b", "-"), "10", "*"),
+  (*19*) Gp("*",  Rf("b", "+"), Rf("c", "+"), "5", "2"),
+  (*20*) Og("o1", <<Rf("a", "+"), Rf("b", "+")>>),
+  (*21*) Og("o2", <<Rf("a", "+"), Rf("e1", "+"), Rf("b", "+")>>),
+  (*22*) Og("o3", <<Rf("o2", "-"), Rf("c", "-")>>),
+  (*23*) Og("*",  <<Rf("b", "+"), Rf("c", "+")>>),
+  (*24*) Og("o4", <<Rf("c", "-")>>),
   (*25*) Ug("u1", <<"a", "e1", "g1">>),
   (*26*) Ug("u2", <<"u1", "o1">>),                       \* nested
   (*27*) Ug("u3", <<"c">>),
@@ -203,7 +203,7 @@ Extra2 == [i \in DOMAIN Cat2 |->
   CASE i = 20 -> {9} [] i = 22 -> {14} [] i = 23 -> {13} [] OTHER -> {}]
 
 Cat(ver)   == IF ver = "gfa1" THEN Cat1 ELSE Cat2
-Extra(ver) == IF ver = "gfa1" THEN Extra1 ELSE Extra2
+DepExtra(ver) == IF ver = "gfa1" THEN Extra1 ELSE Extra2
 
 -----------------------------------------------------------------------------
 (* TEXT of an abstract line (inverse of project.abstract_text) *)
@@ -225,9 +225,9 @@ Text(l) == IF l.rt = "#" THEN "#" \o l.f[1]
 WithTags(l, tgs) == IF l.rt = "#" THEN l ELSE [l EXCEPT !.tg = @ \o tgs]
 
 (* the lines of the document (set of catalogue indices) in the given order *)
-Order(doc, ord) == IF ord = "asc" THEN AscFrom(doc) ELSE Reverse(AscFrom(doc))
+DocOrder(doc, ord) == IF ord = "asc" THEN AscFrom(doc) ELSE Reverse(AscFrom(doc))
 DocLines(ver, doc, tv, ord) ==
-  LET ix == Order(doc, ord) IN
+  LET ix == DocOrder(doc, ord) IN
   [j \in DOMAIN ix |-> WithTags(Cat(ver)[ix[j]], VariantTags(tv, j))]
 
 -----------------------------------------------------------------------------
@@ -236,21 +236,21 @@ TagNamesUnique(l) == \A i, j \in DOMAIN l.tg : l.tg[i].n = l.tg[j].n => i = j
 HdrTagVals(ls, n) ==
   UNION {{CT(ls[i].tg[k]) : k \in {m \in DOMAIN ls[i].tg : ls[i].tg[m].n = n}}
          : i \in {j \in DOMAIN ls : ls[j].rt = "H"}}
-SegLen(ls, id) == LET S == {i \in DOMAIN ls : IsS2(ls[i]) /\ ls[i].name = id} IN
+DocSegLen(ls, id) == LET S == {i \in DOMAIN ls : IsS2(ls[i]) /\ ls[i].name = id} IN
                   IF S = {} THEN -1 ELSE ls[CHOOSE i \in S : TRUE].num[1]
 \* an interval [b, e] on a segment of length n, "$" flags fb, fe
-IvOK(b, fb, e, fe, n) == /\ 0 <= b /\ b <= e /\ e <= n
+DocIvOK(b, fb, e, fe, n) == /\ 0 <= b /\ b <= e /\ e <= n
                          /\ (fb = 1) = (b = n) /\ (fe = 1) = (e = n)
 EdgePosOK(ls, l) ==
-  /\ IvOK(l.num[1], l.num[2], l.num[3], l.num[4], SegLen(ls, l.refs[1].id))
-  /\ IvOK(l.num[5], l.num[6], l.num[7], l.num[8], SegLen(ls, l.refs[2].id))
-Joined(ls, x, y) == \E i \in DOMAIN ls :
+  /\ DocIvOK(l.num[1], l.num[2], l.num[3], l.num[4], DocSegLen(ls, l.refs[1].id))
+  /\ DocIvOK(l.num[5], l.num[6], l.num[7], l.num[8], DocSegLen(ls, l.refs[2].id))
+DocJoined(ls, x, y) == \E i \in DOMAIN ls :
   /\ ls[i].rt = "E"
   /\ \/ ls[i].refs[1] = x /\ ls[i].refs[2] = y
      \/ ls[i].refs[1] = InvRef(y) /\ ls[i].refs[2] = InvRef(x)
-SegNames(ls) == {ls[i].name : i \in {j \in DOMAIN ls : ls[j].rt = "S"}}
+DocSegNames(ls) == {ls[i].name : i \in {j \in DOMAIN ls : ls[j].rt = "S"}}
 OrderedOK(ls, l) == \A k \in 1..(Len(l.refs) - 1) :
-  (l.refs[k].id \in SegNames(ls) /\ l.refs[k + 1].id \in SegNames(ls)) => Joined(ls, l.refs[k], l.refs[k + 1])
+  (l.refs[k].id \in DocSegNames(ls) /\ l.refs[k + 1].id \in DocSegNames(ls)) => DocJoined(ls, l.refs[k], l.refs[k + 1])
 GroupTagsAgree(a, b) == \A i \in DOMAIN a.tg, j \in DOMAIN b.tg : a.tg[i].n = b.tg[j].n => CT(a.tg[i]) = CT(b.tg[j])
 
 IsValidDoc(ls, ver) ==
@@ -264,7 +264,7 @@ IsValidDoc(ls, ver) ==
   /\ \A i, j \in named : (i # j /\ ls[i].name = ls[j].name) =>
         (IsGroup(ls[i]) /\ ls[i].rt = ls[j].rt /\ GroupTagsAgree(ls[i], ls[j]))
   \* every mention is defined
-  /\ \A i \in N : SegMentions(ls[i]) \subseteq SegNames(ls) /\ ItemMentions(ls[i]) \subseteq names
+  /\ \A i \in N : SegMentions(ls[i]) \subseteq DocSegNames(ls) /\ ItemMentions(ls[i]) \subseteq names
   \* links: no two lines for the same edge except one pair of complement forms
   /\ \A i, j \in links : (i < j /\ LinkClash(ls[i], ls[j])) =>
         (IsComplement(ls[i], ls[j]) /\ ~SameEnds(ls[i], ls[j]))
@@ -288,11 +288,11 @@ ValidDocs(ver, k) == {d \in SubsetsUpTo(DOMAIN Cat(ver), k) \ {{}} : IsValidDoc(
 \* generator: dependency closure of a set of seed lines
 DefLine(ver, id) == LET D == {j \in DOMAIN Cat(ver) : Named(Cat(ver)[j]) /\ Cat(ver)[j].name = id} IN
                     CHOOSE j \in D : \A m \in D : j <= m
-Needs(ver, i) == {DefLine(ver, id) : id \in Mentions(Cat(ver)[i])} \cup Extra(ver)[i]
-RECURSIVE Close(_, _)
-Close(ver, X) == LET Y == X \cup UNION {Needs(ver, i) : i \in X} IN
-                 IF Y = X THEN X ELSE Close(ver, Y)
-SeedDocs(ver, k) == {Close(ver, s) : s \in SubsetsUpTo(DOMAIN Cat(ver), k) \ {{}}}
+DepNeeds(ver, i) == {DefLine(ver, id) : id \in Mentions(Cat(ver)[i])} \cup DepExtra(ver)[i]
+RECURSIVE DepClose(_, _)
+DepClose(ver, X) == LET Y == X \cup UNION {DepNeeds(ver, i) : i \in X} IN
+                 IF Y = X THEN X ELSE DepClose(ver, Y)
+SeedDocs(ver, k) == {DepClose(ver, s) : s \in SubsetsUpTo(DOMAIN Cat(ver), k) \ {{}}}
 
 -----------------------------------------------------------------------------
 (* (c) WRITER NORMAL FORM *)
@@ -312,7 +312,7 @@ AllHdrTags(ls) == IF ls = <<>> THEN <<>>
                   ELSE (IF Head(ls).rt = "H" THEN Head(ls).tg ELSE <<>>) \o AllHdrTags(Tail(ls))
 HdrRecs(ls) == SeqMap(HRec, HdrFold(AllHdrTags(ls), <<>>))
 
-Body(ls) == SelectSeq(ls, LAMBDA l : l.rt # "H")
+DocBody(ls) == SelectSeq(ls, LAMBDA l : l.rt # "H")
 
 \* a group given in several lines is one record: items in line order, tags united
 RECURSIVE MergeFold(_, _)
@@ -324,7 +324,7 @@ MergeFold(ls, acc) ==
        ELSE LET k == CHOOSE k \in prev : TRUE
                 extra == SelectSeq(l.tg, LAMBDA t : ~\E m \in DOMAIN acc[k].tg : acc[k].tg[m].n = t.n) IN
             MergeFold(Tail(ls), [acc EXCEPT ![k] = [@ EXCEPT !.refs = @ \o l.refs, !.tg = @ \o extra]])
-Merged(ls) == MergeFold(ls, <<>>)
+MergedGroups(ls) == MergeFold(ls, <<>>)
 
 ComplPairs(ls) ==
   LET L == {k \in DOMAIN ls : ls[k].rt = "L"} IN
@@ -336,12 +336,12 @@ DropChoices(ls) == LET P == ComplPairs(ls) IN
 MaxOf(p) == CHOOSE j \in p : \A i \in p : i <= j
 FirstDrop(ls) == {MaxOf(p) : p \in ComplPairs(ls)}
 
-Out(body, D, ls) == BagOf(SeqMap(NormC, Without(body, D)) \o HdrRecs(ls))
+OutBag(body, D, ls) == BagOf(SeqMap(NormC, Without(body, D)) \o HdrRecs(ls))
 Canon(ls) ==
-  LET b1 == Merged(Body(ls))
-      b2 == Body(ls) IN
-  {Out(b1, D, ls) : D \in DropChoices(b1)} \cup {Out(b2, D, ls) : D \in DropChoices(b2)}
-CanonRef(ls) == LET b1 == Merged(Body(ls)) IN Out(b1, FirstDrop(b1), ls)
+  LET b1 == MergedGroups(DocBody(ls))
+      b2 == DocBody(ls) IN
+  {OutBag(b1, D, ls) : D \in DropChoices(b1)} \cup {OutBag(b2, D, ls) : D \in DropChoices(b2)}
+CanonRef(ls) == LET b1 == MergedGroups(DocBody(ls)) IN OutBag(b1, FirstDrop(b1), ls)
 
 -----------------------------------------------------------------------------
 (* configurations *)
